@@ -17,8 +17,8 @@ repaired visitors ignore) — `.seq` on both routes (`Model.Encoding.encOfJson _
 `from_value` (→ `visit_string` → error for every container, `Model.Encoding.deJson_value_str_err`) is NOT exercised
 by the runner: there is no such format name. -/
 def encOf (fmt : String) (payload : Bytes) : Enc :=
-  if fmt == "json" || fmt == "jsonval" then .seq payload
-  else if fmt == "jsonstr" then .bytes (payload.map (fun b => UInt8.ofNat (97 + b.toNat % 26)))
+  if fmt == "json" || fmt == "jsonval" || fmt == "jsonR" then .seq payload
+  else if fmt == "jsonstr" || fmt == "jsonstrR" then .bytes (payload.map (fun b => UInt8.ofNat (97 + b.toNat % 26)))
   else .bytes payload
 
 /-- self-describing (serde_json, any route) or not (bincode) -/
